@@ -297,7 +297,7 @@ func generate(w *casefile.Writer, seed uint64, thorough bool) {
 	}
 	for i := 0; i < nEnvs; i++ {
 		docs := genCorpus(r, r.Range(2, 30))
-		ns, nr := r.Range(1, 3), r.Range(1, 3)
+		ns, nr := rng.Pick(r, []int{1, 2, 2, 3, 3}), r.Range(1, 3)
 		perShard := make([][]Doc, ns)
 		for _, d := range docs {
 			s := r.Intn(ns)
